@@ -649,8 +649,10 @@ def R5(ctx, rule="R5"):
                       "%s delegates to the same-named fn_meta method" % name,
                       "%s delegates to `%s`: read and write declarations are swapped" % (name, dn))
             continue
-        if self_ty.startswith("data_access::r::R<") or self_ty.startswith("data_access::w::W<"):
-            is_r = self_ty.startswith("data_access::r::R<")
+        READERS = ("data_access::r::R<", "resman::Ref<")          # with feature `resman`, R/W are aliases of resman's guards
+        WRITERS = ("data_access::w::W<", "resman::RefMut<")
+        if self_ty.startswith(READERS) or self_ty.startswith(WRITERS):
+            is_r = self_ty.startswith(READERS)
             want_nonempty = (name == "borrows") == is_r
             if want_nonempty:
                 targ = typeids[0][1]["callee"]["targs"][0]["s"] if typeids else None
